@@ -168,7 +168,7 @@ def init_data(ctx, P, cg):
         Rung("object-reused", "!FRESHH || !FRESHT", {"FRESHH": "header.IsNull()", "FRESHT": "txn_available.empty()"}),
         Rung("prefilled-null", "NULLTX", {"NULLTX": "%s.prefilledtxn[%s].tx.IsNull()" % (cb, pv)}, loop=pre),
         Rung("prefilled-index-overflow", "!IN16", {"IN16": "%s < 65536" % lpi}, loop=pre),
-        Rung("prefilled-index-beyond-ids", "BEYOND", {"BEYOND": "%s.shorttxids.size() + %s < %s" % (cb, pv, lpi)}, loop=pre),
+        Rung("prefilled-index-beyond-ids", "BEYOND", {"BEYOND": ["%s.shorttxids.size() + %s < %s" % (cb, pv, lpi), "%s.shorttxids.size() + %s < (uint32_t)%s" % (cb, pv, lpi)]}, loop=pre),
         # the slot-skipping inner while loop has completed when the bucket test runs (its exit facts are part of the in-loop condition)
         Rung("bucket-overfull", "!SMALL && SKIPPED && !TAKEN", {"SMALL": re.compile(r"\w+\.bucket_size\(\w+\.bucket\(%s\.shorttxids\[%s\]\)\) < 13" % (cb, sv)),
                                                                 "SKIPPED": lambda k: k in inner_done, "TAKEN": re.compile(r"txn_available\[(%s \+ \w+|\w+ \+ %s)\]" % (sv, sv))}, loop=sid),
